@@ -2,7 +2,7 @@
 //! hydration engine (harness/native): the same `build` runs against whichever back end is compiled in.
 use crate::util::*;
 use sycamore::prelude::*;
-use sycamore::web::{custom_element, GlobalAttributes, GlobalProps, Show, ShowProps};
+use sycamore::web::{custom_element, GlobalAttributes, GlobalProps, NoHydrate, Show, ShowProps};
 
 #[derive(Clone, Debug)]
 pub enum AttrV {
@@ -21,6 +21,8 @@ pub enum VD {
     DView0(usize, Vec<Vec<VD>>),
     Show(usize, Vec<VD>),
     Frag(Vec<VD>),
+    /// `NoHydrate { children }`: rendered by the server without hydration keys, skipped by the hydrating client
+    NoHydrate(Vec<VD>),
 }
 
 pub fn leak(s: &str) -> &'static str {
@@ -42,6 +44,7 @@ pub fn sx(v: &VD) -> String {
         VD::DView0(g, alts) => format!("(dview0 {g}{})", alts.iter().map(|a| format!(" (alt{})", l(a))).collect::<String>()),
         VD::Show(g, cs) => format!("(show {g}{})", l(cs)),
         VD::Frag(cs) => format!("(frag{})", l(cs)),
+        VD::NoHydrate(cs) => format!("(nohydrate{})", l(cs)),
     }
 }
 
@@ -86,6 +89,7 @@ pub fn rd(s: &Sx) -> Option<VD> {
         "dview0" => VD::DView0(num(&l[1])?, l[2..].iter().map(|a| { let Sx::L(a) = a else { return None }; a[1..].iter().map(rd).collect::<Option<Vec<_>>>() }).collect::<Option<_>>()?),
         "show" => VD::Show(num(&l[1])?, l[2..].iter().map(rd).collect::<Option<_>>()?),
         "frag" => VD::Frag(l[1..].iter().map(rd).collect::<Option<_>>()?),
+        "nohydrate" => VD::NoHydrate(l[1..].iter().map(rd).collect::<Option<_>>()?),
         _ => return None,
     })
 }
@@ -125,6 +129,46 @@ pub fn build(v: &VD, sigs: &[Signal<u32>]) -> View {
             sycamore::rt::component_scope(move || Show(ShowProps::builder().when(move || s.get() % 2 == 1).children(Children::new(move || View::from(cs.iter().map(|c| build(c, &sigs)).collect::<Vec<View>>()))).build()))
         }
         VD::Frag(cs) => View::from(cs.iter().map(|c| build(c, sigs)).collect::<Vec<View>>()),
+        VD::NoHydrate(cs) => {
+            let (cs, sigs) = (cs.clone(), sigs.to_vec());
+            view! { NoHydrate(children=Children::new(move || View::from(cs.iter().map(|c| build(c, &sigs)).collect::<Vec<View>>()))) }
+        }
+    }
+}
+
+/// what a `NoHydrate` subtree is after hydration: the server rendering for the initial store, never updated
+pub fn freeze(v: &VD, store: &[u32]) -> VD {
+    let fl = |cs: &Vec<VD>| cs.iter().map(|c| freeze(c, store)).collect::<Vec<VD>>();
+    match v {
+        VD::El(tag, attrs, cs) => {
+            let mut a = vec![];
+            for (n, x) in attrs {
+                match x {
+                    AttrV::Static(s) => a.push((n.clone(), AttrV::Static(s.clone()))),
+                    AttrV::Dyn(g) => { let v = store[*g]; if v % 3 != 0 { a.push((n.clone(), AttrV::Static(v.to_string()))); } }
+                    AttrV::DynBool(g) => { if store[*g] % 2 == 1 { a.push((n.clone(), AttrV::Static(String::new()))); } }
+                }
+            }
+            VD::El(tag.clone(), a, fl(cs))
+        }
+        VD::Text(s) => VD::Text(s.clone()),
+        VD::DText(g) => VD::Text(store[*g].to_string()),
+        VD::DView(g, alts) | VD::DView0(g, alts) => if alts.is_empty() { VD::Frag(vec![]) } else { VD::Frag(fl(&alts[store[*g] as usize % alts.len()])) },
+        VD::Show(g, cs) => if store[*g] % 2 == 1 { VD::Frag(fl(cs)) } else { VD::Frag(vec![]) },
+        VD::Frag(cs) | VD::NoHydrate(cs) => VD::Frag(fl(cs)),
+    }
+}
+/// the view a hydrated document behaves like: `NoHydrate` subtrees frozen at the initial store
+pub fn after_hydration(v: &VD, store0: &[u32]) -> VD {
+    let al = |cs: &Vec<VD>| cs.iter().map(|c| after_hydration(c, store0)).collect::<Vec<VD>>();
+    match v {
+        VD::El(tag, attrs, cs) => VD::El(tag.clone(), attrs.clone(), al(cs)),
+        VD::DView(g, alts) => VD::DView(*g, alts.iter().map(al).collect()),
+        VD::DView0(g, alts) => VD::DView0(*g, alts.iter().map(al).collect()),
+        VD::Show(g, cs) => VD::Show(*g, al(cs)),
+        VD::Frag(cs) => VD::Frag(al(cs)),
+        VD::NoHydrate(cs) => VD::Frag(cs.iter().map(|c| freeze(c, store0)).collect()),
+        other => other.clone(),
     }
 }
 
@@ -135,7 +179,7 @@ pub fn gen(rng: &mut Rng, depth: usize, nsig: usize, budget: &mut usize) -> VD {
     if *budget > 0 { *budget -= 1; }
     let leaf = depth == 0 || *budget == 0;
     // `nsig` writable signals 0..nsig-1; signal `nsig` exists too but is never written (input-less regions)
-    match rng.below(if leaf { 3 } else { 11 }) {
+    match rng.below(if leaf { 3 } else { 12 }) {
         0 => VD::Text(["a", "b", "", "x<y", "hello"][rng.below(5)].to_string()),
         1 | 2 => VD::DText(rng.below(nsig)),
         3 | 4 => {
@@ -147,6 +191,7 @@ pub fn gen(rng: &mut Rng, depth: usize, nsig: usize, budget: &mut usize) -> VD {
             let n = 1 + rng.below(2);
             VD::DView0(nsig, (0..n).map(|_| (0..1 + rng.below(3)).map(|_| gen(rng, depth - 1, nsig, budget)).collect()).collect())
         }
+        11 => VD::NoHydrate((0..1 + rng.below(2)).map(|_| gen(rng, depth - 1, nsig, budget)).collect()),
         6 => VD::Frag((0..rng.below(3)).map(|_| gen(rng, depth - 1, nsig, budget)).collect()),
         _ => {
             let mut names: Vec<&str> = vec![];
@@ -162,3 +207,15 @@ pub fn gen(rng: &mut Rng, depth: usize, nsig: usize, budget: &mut usize) -> VD {
     }
 }
 
+
+/// does a `NoHydrate` sit inside a region that can be re-created after hydration? (then it is mounted
+/// normally later, and "frozen at the initial store" is not what the document shows any more)
+pub fn nohydrate_in_dynamic(v: &VD, inside: bool) -> bool {
+    match v {
+        VD::El(_, _, cs) | VD::Frag(cs) => cs.iter().any(|c| nohydrate_in_dynamic(c, inside)),
+        VD::DView(_, alts) | VD::DView0(_, alts) => alts.iter().any(|a| a.iter().any(|c| nohydrate_in_dynamic(c, true))),
+        VD::Show(_, cs) => cs.iter().any(|c| nohydrate_in_dynamic(c, true)),
+        VD::NoHydrate(cs) => inside || cs.iter().any(|c| nohydrate_in_dynamic(c, inside)),
+        _ => false,
+    }
+}
